@@ -2,7 +2,7 @@ SPECIFICATION Spec
 CONSTANTS
   MaxExp = 40
   MaxLen = 4
-  PeriodicShared = FALSE
+  PeriodicShared = TRUE
 INVARIANTS
   GadgetEqualsNative
   PeriodicMeansPeriodic
